@@ -80,7 +80,7 @@ def main():
                 "name": "simverif",
                 "path": "/verif/simverif",
                 "serves_properties": claimed,
-                "kind_free_text": "own deterministic-simulation engine: decision tape (one seed -> every choice), seam library (RNG back ends, clock, fault points), SimWorld stub simulator, program generators with paired reference models, list-shrinker, replay files, known-finding matchers",
+                "kind_free_text": "own deterministic-simulation engine: decision tape (one seed -> every choice), seam library (RNG back ends, clock, fault points), SimWorld stub simulator, program generators with paired reference models, two-stage minimiser (decision-tape shrinker + structural case shrinker), replay files verified in a fresh interpreter, known-finding matchers",
             }
         ],
         "checks": checks,
